@@ -963,9 +963,19 @@ fn c06_finish(run: &mut W3Run, sc: &Scenario, t_fault: i64, what: &str, tally: &
             *tally.outcomes.lock().unwrap().entry(format!("{sig} [{} / {} / {} phases]", what.split(' ').next().unwrap_or(""), if sc.deaf { "deaf PHY" } else { "hearing PHY" }, if sc.phases.iter().all(|p| *p == sc.phases[0]) { "equal" } else { "staggered" })).or_insert(0) += 1;
             let tail: Vec<String> = run.log.iter().rev().take(10).rev().map(|(a, f, s, _)| format!("{}us #{} {}", s / rate, a, f.as_ref().map(|f| f.short()).unwrap_or("??".into()))).collect();
             let views: Vec<String> = (0..sc.addrs.len()).map(|i| format!("#{}:{:?}", sc.addrs[i], run.view(i))).collect();
-            // the signature names the kind of disturbance, the PHY model and the kind of poll schedule
+            // the signature names the kind of disturbance, the PHY model and the kind of poll schedule …
             let kind = job["kind"].as_str().unwrap_or("x").replace('+', "_then_");
-            let sig = format!("{sig}.after_{kind}.{}.{}", if sc.deaf { "deaf_phy" } else { "hearing_phy" }, if sc.phases.iter().all(|p| *p == sc.phases[0]) { "equal_phases" } else { "staggered_phases" });
+            let mut sig = format!("{sig}.after_{kind}.{}.{}", if sc.deaf { "deaf_phy" } else { "hearing_phy" }, if sc.phases.iter().all(|p| *p == sc.phases[0]) { "equal_phases" } else { "staggered_phases" });
+            // … except for one END STATE that is recognised whatever led to it: under the PHY that is deaf while
+            // it transmits, two stations transmit aligned to within one character time at the end (recorded
+            // finding F22: they can never notice each other)
+            if sc.deaf {
+                let last: Vec<(u8, i64)> = run.log.iter().rev().take(16).map(|(a, _, s, _)| (*a, *s)).collect();
+                let aligned = last.windows(2).filter(|w| w[0].0 != w[1].0 && (w[0].1 - w[1].1).abs() < 11 * crate::bus::BIT).count();
+                if aligned >= 4 {
+                    sig = "c06.not_recovered.aligned_token_holders.deaf_phy".to_string();
+                }
+            }
             ctx().violation(
                 sig,
                 format!("{detail} [after {what}; stations {:?} HSA {} slot {} divs {:?} phases {:?} PHY {}; now={}us horizon={}us; last telegrams: {:?}; views: {:?}]", sc.addrs, sc.hsa, sc.slot_bits, sc.divs, sc.phases, if sc.deaf { "deaf while transmitting" } else { "hears collisions" }, run.now, run.horizon_us, tail, views),
